@@ -1,10 +1,10 @@
 package main
 
 import (
-	"regexp/syntax"
 	"fmt"
 	"go/token"
 	"go/types"
+	"regexp/syntax"
 	"sort"
 	"strings"
 
